@@ -168,10 +168,11 @@ static struct {
 static volatile int sigcount; static int lastsig;
 static void onsig(int s) { sigcount++; lastsig = s; }
 
-static char **dupvec(char **v, size_t n) { if (!v) return NULL; char **r = calloc(n + 1, sizeof *r); for (size_t i = 0; i < n; i++) r[i] = v[i] ? strdup(v[i]) : NULL; return r; }
+/* consecutive entries that share one string (sharedargv) share the copy too */
+static char **dupvec(char **v, size_t n) { if (!v) return NULL; char **r = calloc(n + 1, sizeof *r); for (size_t i = 0; i < n; i++) r[i] = !v[i] ? NULL : (i && v[i] == v[i - 1]) ? r[i - 1] : strdup(v[i]); return r; }
 static int veceq(char *const *a, char **b) {
     if (!a || !b) return a == (char *const *) b;
-    size_t i = 0; for (; a[i] && b[i]; i++) if (strcmp(a[i], b[i])) return 0; return a[i] == NULL && b[i] == NULL;
+    size_t i = 0; for (; a[i] && b[i]; i++) { if (i && a[i] == a[i - 1] && b[i] == b[i - 1]) continue; if (strcmp(a[i], b[i])) return 0; } return a[i] == NULL && b[i] == NULL;
 }
 
 static int at_idx;
@@ -236,7 +237,7 @@ static void do_call(const char *kind) {
         if (cur.want_snap) { snapshot("snap"); opf(","); }
         drain_all("sinks"); opf("}\n"); oflush();
     }
-    if (cur.s_argv) { for (size_t i = 0; i < cur.argc; i++) free(cur.s_argv[i]); free(cur.s_argv); cur.s_argv = NULL; }
+    if (cur.s_argv) { for (size_t i = 0; i < cur.argc; i++) if (i == 0 || cur.s_argv[i] != cur.s_argv[i - 1]) free(cur.s_argv[i]); free(cur.s_argv); cur.s_argv = NULL; }
     if (cur.s_envp) { for (size_t i = 0; i < cur.envc; i++) free(cur.s_envp[i]); free(cur.s_envp); cur.s_envp = NULL; }
 }
 
@@ -244,7 +245,7 @@ static void do_call(const char *kind) {
 static char **lines; static size_t nlines;
 static char *tok[70000]; static int ntok;
 static void split(char *l) { ntok = 0; for (char *p = strtok(l, " \n"); p && ntok < 70000; p = strtok(NULL, " \n")) tok[ntok++] = p; }
-static void freevec(char ***v, size_t *n) { if (*v) { for (size_t i = 0; i < *n; i++) free((*v)[i]); free(*v); } *v = NULL; *n = 0; }
+static void freevec(char ***v, size_t *n) { if (*v) { for (size_t i = 0; i < *n; i++) if (i == 0 || (*v)[i] != (*v)[i - 1]) free((*v)[i]); free(*v); } *v = NULL; *n = 0; }
 static char **private_env; static size_t private_envn;
 
 static void add_sink(const char *name, int type, const char *path, int fd) {
@@ -345,6 +346,11 @@ static size_t run_line(size_t pc, int in_child, int *stop) {
         freevec(v, cnt); size_t k = strtoul(tok[1], 0, 10), len = strtoul(tok[2], 0, 10);
         *v = calloc(k + 1, sizeof **v);
         for (size_t i = 0; i < k; i++) { char *s = malloc(len + 1); for (size_t j = 0; j < len; j++) s[j] = (char) ('a' + (i * 7 + j) % 26); s[len] = 0; (*v)[(*cnt)++] = s; }
+    } else if (!strcmp(c, "sharedargv")) {                              /* sharedargv COUNT LEN : "prog" + COUNT pointers to ONE string of LEN bytes (a..w repeated) */
+        freevec(&cur.argv, &cur.argc); size_t k = strtoul(tok[1], 0, 10), len = strtoul(tok[2], 0, 10);
+        cur.argv = calloc(k + 2, sizeof *cur.argv); cur.argv[cur.argc++] = strdup("prog");
+        char *sh = malloc(len + 1); for (size_t j = 0; j < len; j++) sh[j] = (char) (97 + j % 23); sh[len] = 0;
+        for (size_t i = 0; i < k; i++) cur.argv[cur.argc++] = sh;
     } else if (!strcmp(c, "ret")) { cur.real = 0; cur.ret = atoi(tok[1]); cur.err = atoi(tok[2]);
     } else if (!strcmp(c, "real")) { cur.real = 1;
     } else if (!strcmp(c, "snap")) { cur.want_snap = atoi(tok[1]);
